@@ -256,4 +256,32 @@ Section AtR.
     split; [reflexivity|].
     intros a Ha. unfold final_pure; cbn [m_anis]. rewrite Ha. reflexivity.
   Qed.
+
+  (* ---------- every evaluation of the curve sees the requested variance (the curve values the optimiser fits
+     against are those of the model with the fixed / deselected variance, also for TPL models) *)
+  Lemma get_var_curve_pure c vs var_save (s : MS) :
+    get_var O (curve_pure O c vs var_save s) = odflt (v_var vs) var_save.
+  Proof.
+    unfold curve_pure. destruct (v_anis vs); cbn [oupd]; unfold upd_anis_n; rewrite ?get_var_upd_anis; apply get_upd_var.
+  Qed.
+  Theorem curve_restores_variance c p so fa var_save evs : forall (s : MS) l,
+    p_var p = false ->
+    evals_states O c p so fa var_save evs s = Ok l ->
+    Forall (fun s' => get_var O s' = var_save) l.
+  Proof.
+    induction evs as [|a r IH]; intros s l Pv H; simpl in H.
+    - inversion H; subst. constructor.
+    - bk H s1 Q1. bk H l1 Q2. inversion H; subst. constructor; [|eapply IH; eauto].
+      apply curve_step_ok in Q1. destruct Q1 as [-> _]. unfold curve_step_pure.
+      rewrite (v_var_none O c p fa a Pv). rewrite get_var_curve_pure. rewrite (v_var_none O c p fa a Pv). reflexivity.
+  Qed.
+  Theorem trace_restores_variance c nopt sel sill anis isdir evs (s0 s1 : MS) para so af l :
+    pre_para O true c nopt sel sill anis s0 = Ok (s1, para, so, af) ->
+    p_var para = false ->
+    fit_trace O true c nopt sel sill anis isdir evs s0 = Ok l ->
+    Forall (fun s' => get_var O s' = get_var O s1) l.
+  Proof.
+    intros Ep Pv. unfold fit_trace. rewrite Ep. cbn [bind]. destruct (isdir && c_latlon c); [discriminate|].
+    intros H. eapply curve_restores_variance; eauto.
+  Qed.
 End AtR.
